@@ -1059,10 +1059,10 @@ func inv_spelling_params(varPool *VarPool, imports map[string]*Import, typ *type
 	vs.Invariant("earlier_records_kept", earlierRecordsKept())
 	vs.Invariant("imports_only_grow", importsOnlyGrow(imports))
 	vs.Invariant("parameters_count", 0 <= i && i <= typ.Params().Len() && len(funcFields) == i)
-	vs.Invariant("parameters_new", fieldsAreNew(funcFields, i))
-	vs.Invariant("parameter_types_new", fieldTypesAreNew(funcFields, i))
-	vs.Invariant("parameters_named", paramsNamed(funcFields, i))
-	vs.Invariant("parameter_types_spelled", paramTypesSpelled(funcFields, typ, i))
+	vs.Invariant("parameters_new", fieldsAreNew(funcFields, i), "parameters_count", "parameters_new", "env")
+	vs.Invariant("parameter_types_new", fieldTypesAreNew(funcFields, i), "parameters_count", "parameters_new", "parameter_types_new", "env")
+	vs.Invariant("parameters_named", paramsNamed(funcFields, i), "parameters_count", "parameters_new", "parameters_named", "env")
+	vs.Invariant("parameter_types_spelled", paramTypesSpelled(funcFields, typ, i), "parameters_count", "parameters_new", "parameter_types_spelled", "earlier_records_kept", "env")
 }
 
 //kvc:loop createASTTypeExpr@spelling "for i := 0; i < typ.Results().Len(); i++"
@@ -1076,10 +1076,10 @@ func inv_spelling_results(varPool *VarPool, imports map[string]*Import, typ *typ
 	vs.Invariant("parameters_named", paramsNamed(funcFields, typ.Params().Len()))
 	vs.Invariant("parameter_types_spelled", paramTypesSpelled(funcFields, typ, typ.Params().Len()))
 	vs.Invariant("results_count", 0 <= i && i <= typ.Results().Len() && len(resultsFields) == i)
-	vs.Invariant("results_new", fieldsAreNew(resultsFields, i))
-	vs.Invariant("result_types_new", fieldTypesAreNew(resultsFields, i))
-	vs.Invariant("results_named", resultsNamed(resultsFields, i))
-	vs.Invariant("result_types_spelled", resultTypesSpelled(resultsFields, typ, i))
+	vs.Invariant("results_new", fieldsAreNew(resultsFields, i), "results_count", "results_new", "env")
+	vs.Invariant("result_types_new", fieldTypesAreNew(resultsFields, i), "results_count", "results_new", "result_types_new", "env")
+	vs.Invariant("results_named", resultsNamed(resultsFields, i), "results_count", "results_new", "results_named", "env")
+	vs.Invariant("result_types_spelled", resultTypesSpelled(resultsFields, typ, i), "results_count", "results_new", "result_types_spelled", "earlier_records_kept", "env")
 }
 
 //kvc:loop createASTTypeExpr@spelling "for i := 0; i < typ.NumFields(); i++"
